@@ -56,7 +56,11 @@ def gen_ops(d: gen.D, tree, c, lo=3, hi=14, kinds=None, n_files=0, n_slots=2) ->
         elif k == "reset_menu":
             ops.append(["reset_menu", d.int(0, 5)])
         elif k == "read":
-            ops.append(["read", d.subset(names, 40)])
+            # a partial read: some options, sometimes only the selection of some choices ("@choice:<i>")
+            what = d.subset(names, 40)
+            if d.chance(35):
+                what = what + [f"@choice:{d.int(0, 3)}"]
+            ops.append(["read", what])
         elif k == "load_hand" and n_files:
             ops.append(["load_hand", d.int(0, n_files - 1), not d.chance(40)])
         elif k == "write":
@@ -104,6 +108,11 @@ class Session:
             return None
         if kind == "read":
             for n in op[1]:
+                if n.startswith("@choice:"):
+                    chs = k.unique_choices
+                    if chs:
+                        chs[int(n[8:]) % len(chs)].selection
+                    continue
                 s = k.syms.get(n)
                 if s is not None:
                     s.str_value, s.visibility, s.assignable
